@@ -129,7 +129,7 @@ class G:
         if new_file or not files:
             pool = [p for p in gen.PLAIN_NAMES + (gen.HAZARD_NAMES if self.hz.get("names") else [])
                     if p not in files]
-            path = rng.choice(pool)
+            path = rng.choice(pool) if pool else "extra/n%d.txt" % self.ex.fresh_id()
             old = None
             kinds = ["insert"]
         elif path is None:
